@@ -467,7 +467,7 @@ fn run_setup(ctx: &mut Ctx) {
                 continue;
             }
             // quick: the whole grid as well (it is cheap), with a smaller pairing sample
-            let budget = if ctx.thorough { 1500 } else { 16 };
+            let budget = if ctx.thorough { 300 } else { 16 };
             setup_case(ctx, nv, d, budget);
         }
         ctx.flush_model(&format!("C15-setup-{}", nv));
